@@ -70,6 +70,11 @@ CLAIMED = {
             "under an exact-rotation ego pose with symbolic translation; the whole matching + frame evaluation pipeline runs on "
             "both renderings inside one symbolic execution and z3 decides that filtering, pairing, TP/FP/FN/TN membership and "
             "AP/APH (two-frame sequences: CLEAR outputs) agree on every path."),
+    "C13": ("4 C13", "A real PerceptionEvaluationManager (dataset loader and visualizers stubbed as environment) is driven through "
+            "call histories on scenes with symbolic positions: z3 decides that the scene score is the AP of the pooled results, "
+            "that ground-truth counts add up, that frame order does not matter, and - relationally - that a call made after "
+            "any of the explored prefixes returns exactly what it returns on a fresh manager, with the caller's list and the "
+            "dataset unmodified."),
 }
 NA = {
     "C16": "dataset loading goes through the nuScenes devkit and file I/O; a symbolic stand-in for the devkit would be the "
